@@ -114,8 +114,13 @@ def finish(prop, pdef, tier, seed, reg, kentries, kres, ventries, vres, wall, sc
         log(f"VIOLATION property={prop} replay={replay_path}" + ("" if witness else " no-failing-input-found"))
     elif undecided:
         rc = 2
+        seen = set()
         for o in undecided:
-            log(f"UNDECIDED obligation {o['id']} via {o['via']}: {o['reason'][:200]}")
+            if o['reason'] in seen:
+                continue
+            seen.add(o['reason'])
+            n = sum(1 for x in undecided if x['reason'] == o['reason'])
+            log(f"UNDECIDED {n} obligation(s), e.g. {o['id']} via {o['via']}: {o['reason'][:300]}")
 
     # ---- evidence
     proved = [o for o in obligations if o["kind"] in ("complete", "unbounded")]
